@@ -205,3 +205,29 @@ META["C13"] = dict(
     level_note="Trusts the harness's base64 encoder and the exact-match reading of the statement. Sampled credential and header space.",
     design_ref="DESIGN.md §5 C13",
 )
+
+PLANS["C02"] = dict(
+    level="exploration",
+    rule=("60% requests of the supported subset from a grammar (7 methods; origin-form targets of depth 0-4 with percent-escapes, up to 880 bytes, optional query; 0-12 headers from the 46 standard and 8 "
+          "custom names, each in exact/lower/UPPER/rAnDoM case, repeated headers; values of printable ASCII and UTF-8; bodies of 0..20000 bytes incl. first byte 0x00, all-zero, NUL inside, binary, sizes "
+          "around the 1 KiB buffer; Content-Length in any case, with leading zeros), 40% malformed variants by 25 mutation kinds (truncation at 4 structural points, no second space, bad/short version, "
+          "LF-only, missing colon-space, Content-Length abc/-1/+5/' 5'/20+ digits/4294967296/duplicate differing, non-UTF-8 path and header value, NUL in request line and header, unknown and "
+          "lower-case method, garbage, Transfer-Encoding: chunked, empty header name). Each byte string is the first read of a fresh connection into the real Request::read; the parsed request is "
+          "inspected through every accessor under catch_unwind and compared with an independent reference parser. distinct_nontrivial = distinct (method, target shape, header count/casing pattern, "
+          "body class, mutation kind) vectors."),
+    quick=[R("c02", "rel", 160_000), R("c02", "miri", 100_000, shards=8, flags={"small": 1})],
+    thorough=[R("c02", "rel", 4_000_000), R("c02", "dbg", 500_000), R("c02", "asan", 500_000), R("c02", "miri", 100_000, shards=16, flags={"small": 1})],
+    floors={"quick": {"evaluations": 100_000, "distinct": 20_000, "faithful": 50_000, "refused-with-error": 20_000, "stuck-waiting-for-announced-body": 500},
+            "thorough": {"evaluations": 4_000_000, "distinct": 100_000}},
+    assumptions=["the subset is fixed by reqref::parse_request: one SP between request-line parts, HTTP/1.1, CRLF, 'Name: value' with token names and values without surrounding whitespace, "
+                 "single all-digit Content-Length < 2^32", "heads larger than the 1 KiB buffer may be parsed or refused", "a body that is announced but not delivered may be waited for",
+                 "outside the subset, odd header-name characters / whitespace around values / raw non-ASCII target bytes / bare LF may be parsed leniently (no panic, no hang, no accessor panic)"],
+)
+META["C02"] = dict(
+    engine="vh c02",
+    technique="runtime monitoring: differential oracle (independent strict reference parser) over grammar-generated and mutated byte strings fed to the real reader through a scripted in-memory connection; accessor panics and logical hangs observed directly; Miri/ASan on the same workload",
+    level_text=("Every input is executed through the real Request::read; the outcome (parsed / error response / close / panic / waiting with all bytes delivered) and every public accessor of the parsed "
+                "request are observed and compared with the reference. Hangs are decided logically by the executor (pending, script exhausted, no wake owed), not by timeouts."),
+    level_note="Trusts the reference parser and its reading of 'supported subset' (spelled out in assumptions). Inputs are sampled from the grammar and mutation kinds.",
+    design_ref="DESIGN.md §5 C02",
+)
